@@ -27,7 +27,7 @@ KINDS = ["3B2", "NP2.1", "NP2.4", "NPultra"]
 
 
 def gen_cases(seed, tier):
-    k = 1 if tier == "quick" else 12
+    k = 1 if tier == "quick" else 36
     cases = []
     i = 0
     for rep in range(k):
@@ -38,7 +38,7 @@ def gen_cases(seed, tier):
         for j, kind in enumerate(KINDS):
             cases.append({"cls": "lfp", "kind": kind, "seed": seed * 1000 + i + j, "_w": 3})
             cases.append({"cls": "outside", "kind": kind, "k_filter": bool((rep + j) % 2), "seed": seed * 1000 + i + j, "_w": 3})
-    n = 10 if tier == "quick" else 150
+    n = 10 if tier == "quick" else 600
     cases += [{"cls": "groups", "seed": seed * 1000 + j, "n": 4, "_w": 1} for j in range(n)]
     cases += [{"cls": "agc", "seed": seed * 1000 + j, "n": 6, "_w": 1} for j in range(n)]
     return cases
